@@ -3,11 +3,13 @@ PROPS = {
         "level": "proof",
         "design_ref": "4.1",
         "technique": "Verus function contracts against a spec-function transcription of the BLAKE3 paper",
-        "level_text": "unbounded deductive proof (Verus/z3) that the real portable compression function and the "
-                      "byte/word helpers equal the paper's G/round/permutation definition for all arguments",
+        "level_text": "unbounded deductive proof (Verus/z3): hash / keyed_hash / derive_key and every function below them "
+                      "(tree recursion, chunk state, portable kernels, byte/word helpers) meet postconditions that equate "
+                      "their results with a spec-function transcription of the BLAKE3 paper, for all inputs and all "
+                      "Platform values; every arithmetic op, index, unwrap, push and (debug_)assert is an obligation",
         "level_note": "trusted: Verus+z3, extraction rules, std intrinsics (rotate_right, from/to_le_bytes), SIMD "
                       "kernels assumed (C05)",
-        "units": {"quick": [v("chunk")], "thorough": []},
+        "units": {"quick": [v("tree")], "thorough": []},
         "explanation": "Verus discharges, for all inputs, the postconditions that tie the real (mechanically "
                        "extracted) functions of src/lib.rs, src/portable.rs, src/platform.rs, src/hazmat.rs to a "
                        "BLAKE3 specification written as spec functions from the paper; every arithmetic operation, "
